@@ -157,6 +157,7 @@ class Engine:
         self.query_timeout_ms = o.get('query_timeout_ms', 60_000)
         self.fast_timeout_ms = int(os.environ.get('MIRSYM_FAST_MS', o.get('fast_timeout_ms', 500)))
         self.model_solver = None
+        self.div_lemma = bool(os.environ.get('MIRSYM_DIV_LEMMA'))   # experimental (C21 probe only)
         self.solver = z3.Solver()
         self.solver.set('timeout', self.query_timeout_ms)
         self.pc = []
@@ -333,6 +334,7 @@ class Engine:
         self.callstack = []
         self.check_sites = {}
         self.ascii_ok = set()
+        self.bitcode_payloads = {}
 
     def _wait(self, pid):
         while True:
@@ -828,6 +830,29 @@ class Engine:
         if sk[0] == 'int':
             if op == 'Cmp':
                 return self.cmp3(ops.int_binop('Lt', a, b, sk[1], sk[2]), ops.int_binop('Eq', a, b, sk[1], sk[2]))
+            if self.div_lemma and op in ('Div', 'Rem') and sk[1] == 64 and is_sym(a) and not is_sym(b) and b not in (0, -1):
+                # 64-bit division by a constant does not come back from the bit-blaster: introduce the quotient and
+                # remainder as fresh variables tied to the dividend by the division lemma (truncating division:
+                # a = q*d + r, |r| < |d|, r has the sign of a).  Exact: q and r are uniquely determined.
+                w, signed = sk[1], sk[2]
+                q = self.fresh('divq', z3.BitVecSort(w))
+                r = self.fresh('divr', z3.BitVecSort(w))
+                d = z3.BitVecVal(b, w)
+                ad = abs(b)
+                if signed:
+                    # no overflow in q*d + r: q bounded by |a|/|d|
+                    lim = (1 << (w - 1)) // ad + 1
+                    self.add(z3.And(q >= -lim, q <= lim))
+                    self.add(a == q * d + r)
+                    self.add(z3.And(r > -ad, r < ad))
+                    self.add(z3.Or(r == 0, (r > 0) == (a > 0)))
+                else:
+                    lim = (1 << w) // ad + 1
+                    self.add(z3.ULE(q, lim))
+                    self.add(a == q * d + r)
+                    self.add(z3.ULT(r, ad))
+                self.assumptions.add('64-bit division by a constant encoded with fresh quotient/remainder and the division lemma')
+                return q if op == 'Div' else r
             return ops.int_binop(op, a, b, sk[1], sk[2])
         if sk[0] == 'bool':
             return ops.bool_binop(op, a, b)
@@ -1208,7 +1233,7 @@ class Engine:
                 ci.kind = 'dyn'
                 ci.trait = tname
                 return ci
-            fn = self.resolve_trait_impl(sty, tname, ci.method)
+            fn = self.resolve_trait_impl(sty, tname, ci.method, ci.trait)
             ci.trait = tname
             if fn is not None:
                 ci.kind = 'mir'
@@ -1322,7 +1347,7 @@ class Engine:
         fn.key = d
         return d
 
-    def resolve_trait_impl(self, self_ty, trait, method):
+    def resolve_trait_impl(self, self_ty, trait, method, trait_full=None):
         want = type_head(self_ty)
         found = []
         for mf in self.mfs:
@@ -1336,6 +1361,19 @@ class Engine:
                     found.append(fn)
         if not found:
             return None
+        if len(found) > 1 and trait_full and '<' in trait_full:
+            # several impls of one generic trait (`Add<TimeDelta>`, `Add<Months>` ...): match the trait's type argument
+            garg = split_top(trait_full[trait_full.index('<') + 1:trait_full.rindex('>')])[0]
+            gh = type_head(garg)
+            sel = []
+            for f in found:
+                txt = f.src.impl_header_text(f) or ''
+                k = find_top(txt, ' for ')
+                head = txt[:k] if k >= 0 else txt
+                if re.search(r'<\s*(?:[\w:]*::)?%s\s*>' % re.escape(gh), head):
+                    sel.append(f)
+            if len(sel) == 1:
+                return sel[0]
         if len(found) > 1:
             # same type name in different modules: use module hint from the printed type
             hint = strip_generics(strip_ref(self_ty)).split('::')
